@@ -22,6 +22,7 @@ type faultWriter struct {
 	k, mode int
 	calls   int
 	bytes   int
+	flusher bool // present the destination through a type that also has Flush() error
 }
 
 var errInjected = errors.New("injected write failure")
@@ -46,11 +47,21 @@ func (w *faultWriter) Write(p []byte) (int, error) {
 
 var _ io.Writer = (*faultWriter)(nil)
 
+// flushingFaultWriter: the same destination with a Flush method that always succeeds (a
+// writer whose Flush does not repeat an earlier write error).
+type flushingFaultWriter struct{ *faultWriter }
+
+func (flushingFaultWriter) Flush() error { return nil }
+
 var c15Entry = []string{"Encoder.WriteTo", "NewEncoder(w).WriteObject", "Serializer.WriteTo", "Serializer.Write(second value)",
 	"Encoder.WriteTo after a failed WriteTo on the same Encoder", "Serializer.WriteTo after a failed ToBytes on the same Serializer"}
 
 // encodeVia runs one encode entry point against w.
-func encodeVia(entry int, w *faultWriter, v interface{}, nm map[string]string) (err error, pv interface{}, st string) {
+func encodeVia(entry int, fw *faultWriter, v interface{}, nm map[string]string) (err error, pv interface{}, st string) {
+	var w io.Writer = fw
+	if fw.flusher {
+		w = flushingFaultWriter{fw}
+	}
 	pv, st = guard(func() {
 		switch entry {
 		case 0:
@@ -72,19 +83,19 @@ func encodeVia(entry int, w *faultWriter, v interface{}, nm map[string]string) (
 		case 3:
 			// a first value goes to the same writer before the fault window opens
 			s := hessian.NewSerializer(nil, nm)
-			k := w.k
-			w.k = 0
+			k := fw.k
+			fw.k = 0
 			if e := s.WriteTo(w, int32(7)); e != nil {
 				err = fmt.Errorf("unfaulted first write failed: %v", e)
 				return
 			}
-			w.k = k
+			fw.k = k
 			if k > 0 {
-				w.k = k + w.calls
+				fw.k = k + fw.calls
 			}
-			base := w.calls
+			base := fw.calls
 			err = s.Write(v)
-			w.calls -= base
+			fw.calls -= base
 		}
 	})
 	return
@@ -112,6 +123,7 @@ func TestC15(t *testing.T) {
 		c.set("shape", shape)
 		c.set("value", desc)
 		entry := rapid.IntRange(0, len(c15Entry)-1).Draw(rt, "entry")
+		flusher := rapid.Bool().Draw(rt, "destinationHasFlush")
 		c.set("entry", c15Entry[entry])
 		// unfaulted run: count the Write calls
 		w0 := &faultWriter{}
@@ -127,7 +139,7 @@ func TestC15(t *testing.T) {
 		h := av.Hash(shape + desc)
 		for k := 1; k <= W; k++ {
 			for mode := 0; mode < 4; mode++ {
-				w := &faultWriter{k: k, mode: mode}
+				w := &faultWriter{k: k, mode: mode, flusher: flusher}
 				err, pv, st := encodeVia(entry, w, v, copyNames(nm))
 				r.Eval()
 				if k > 1 && k < W {
